@@ -142,6 +142,7 @@ def saveOps (o : Obj) (h : Bytes) (secs : List SecBuf) (segs : List Seg) : List 
 theorem saveSection_eq (c enc shoff shentsize) (os : OStream) (b : SecBuf) :
     saveSection c enc shoff shentsize os b = runStreamOps (secOps c enc shoff shentsize b) os := by
   unfold saveSection secOps
+  rw [secWritesData_eq]
   split <;> rfl
 
 theorem saveSegment_eq (c enc phoff phentsize) (os : OStream) (g : Seg) :
